@@ -28,6 +28,8 @@ def new_fp(target):
 
 def read_config(text):
   from atsim.potentials.config import Configuration
+  if isinstance(text, bytes):
+    return Configuration().read(io.TextIOWrapper(io.BytesIO(text), encoding="utf-8"))
   return Configuration().read(io.StringIO(text))
 
 
@@ -62,8 +64,12 @@ def run_potable(args, text=None, tmpdir=None, hashseed="0", timeout=120, infile_
   inpath = None
   if text is not None:
     inpath = os.path.join(tmpdir, infile_name)
-    with open(inpath, "w", newline="") as f:
-      f.write(file_variant(text))
+    if isinstance(text, bytes):        # a file that is not text in the expected encoding
+      with open(inpath, "wb") as f:
+        f.write(text)
+    else:
+      with open(inpath, "w", newline="") as f:
+        f.write(file_variant(text))
     argv = [inpath if a == "@IN" else a for a in argv]
   outpath = os.path.join(tmpdir, "OUT.table")
   if os.path.exists(outpath):
@@ -80,6 +86,22 @@ def run_potable(args, text=None, tmpdir=None, hashseed="0", timeout=120, infile_
           "data": data, "exists": exists, "outpath": outpath, "inpath": inpath, "tmpdir": tmpdir}
 
 
+class Numpy0d(object):
+  """A callable as people build them on numpy / scipy interpolants: it returns a 0-d array, not a float."""
+
+  def __init__(self, f):
+    import numpy
+    self._f = f
+    self._np = numpy
+    if hasattr(f, "deriv"):
+      self.deriv = lambda r: numpy.array(f.deriv(r))
+    if hasattr(f, "deriv2"):
+      self.deriv2 = lambda r: numpy.array(f.deriv2(r))
+
+  def __call__(self, r):
+    return self._np.array(self._f(r))
+
+
 def pair_potentials_api(model, wrap=None):
   """Potential objects built through the Python API from a pair model spec."""
   from atsim.potentials import Potential
@@ -92,6 +114,8 @@ def pair_potentials_api(model, wrap=None):
       f = shared[key]          # the very same callable object serves several species pairs
     else:
       f = emit.api_callable(node, model.get("tables"))
+      if model.get("api_results") == "numpy0d":
+        f = Numpy0d(f)
       if wrap is not None:
         f = wrap(f, (a, b))
       shared[key] = f
@@ -169,6 +193,8 @@ def eam_api_objects(model, wrap=None):
     if model.get("share_callables") and key in shared and tag[0] == shared[key][1]:
       return shared[key][0]      # one callable object serving several species / pairs of the same kind
     f = emit.api_callable(node, tables)
+    if model.get("api_results") == "numpy0d":
+      f = Numpy0d(f)
     f = wrap(f, tag) if wrap else f
     shared[key] = (f, tag[0])
     return f
@@ -261,8 +287,12 @@ def potable_main(args, text=None, tmpdir=None, infile_name="model.aspot"):
   inpath = None
   if text is not None:
     inpath = os.path.join(tmpdir, infile_name)
-    with open(inpath, "w", newline="") as f:
-      f.write(file_variant(text))
+    if isinstance(text, bytes):        # a file that is not text in the expected encoding
+      with open(inpath, "wb") as f:
+        f.write(text)
+    else:
+      with open(inpath, "w", newline="") as f:
+        f.write(file_variant(text))
     argv = [inpath if a == "@IN" else a for a in argv]
   outpath = os.path.join(tmpdir, "OUT.table")
   if os.path.exists(outpath):
